@@ -147,6 +147,14 @@ pub fn customs(_args: &[String]) -> Result<Value> {
     Ok(json!({"violated": !failures.is_empty(), "cases_checked": checked, "failures": failures}))
 }
 
+fn last_segment_is_declared(wasm: &[u8]) -> Result<bool> {
+    let mut last = None;
+    for p in wasmparser::Parser::new(0).parse_all(wasm) {
+        if let wasmparser::Payload::ElementSection(s) = p? { for e in s { last = Some(matches!(e?.kind, wasmparser::ElementKind::Declared)); } }
+    }
+    Ok(last.unwrap_or(false))
+}
+
 /// `emit-twice`: repeated emission of the same in-memory module is byte-identical (operator + entity corpus)
 pub fn emit_twice(_args: &[String]) -> Result<Value> {
     std::panic::set_hook(Box::new(|_| {}));
@@ -441,6 +449,9 @@ pub fn gc(args: &[String]) -> Result<Value> {
             let (_, want) = crate::reach::counts(&w2)?;
             let (mut have, _) = crate::reach::counts(&out)?;
             if want[2] == 0 && have[2] == 1 && have[4] > 0 { have[2] = 0; }
+            // one declared element segment may be ADDED: it re-declares functions that a kept body names by `ref.func` and whose only
+            // declaration (a segment or global that was itself unreachable) has been removed (repair of F17)
+            if have[5] == want[5] + 1 && last_segment_is_declared(&out)? { have[5] -= 1; }
             if want != have { return Ok(Some(format!("kept entities (funcs, tables, memories, globals, datas, elems) = {:?}, reachable in the input = {:?}", have, want))); }
             walrus::passes::gc::run(&mut m);
             let out2 = m.emit_wasm();
@@ -491,12 +502,15 @@ pub fn random_graph_modules(n: usize, seed: u64) -> Vec<(String, String)> {
         let tables: Vec<String> = (0..nit).map(|i| format!("$it{i}")).chain((0..nt).map(|i| format!("$t{i}"))).collect();
         let mems: Vec<String> = (0..nm).map(|i| format!("$m{i}")).collect();
         let mut ref_funcd: Vec<String> = vec![];
+        // functions that some segment / funcref global mentions (a `ref.func` of such a function needs no further declaration in the input;
+        // gc may remove that very segment / global and must then keep the function declared)
+        let mut mentioned: Vec<String> = vec![];
         // globals: mutable i32 (const or imported-global initialiser) or funcref (ref.func initialiser)
         let mut globals_i32: Vec<String> = vec![];
         let mut gl = String::new();
         for i in 0..ng {
             match rnd(3) {
-                0 => { let f = funcs[rnd(funcs.len())].clone(); gl.push_str(&format!(" (global $g{i} funcref (ref.func {f}))\n")); }
+                0 => { let f = funcs[rnd(funcs.len())].clone(); gl.push_str(&format!(" (global $g{i} funcref (ref.func {f}))\n")); mentioned.push(f); }
                 1 if nig > 0 => { gl.push_str(&format!(" (global $g{i} (mut i32) (global.get $ig{}))\n", rnd(nig))); globals_i32.push(format!("$g{i}")); }
                 _ => { gl.push_str(&format!(" (global $g{i} (mut i32) (i32.const {i}))\n")); globals_i32.push(format!("$g{i}")); }
             }
@@ -515,6 +529,7 @@ pub fn random_graph_modules(n: usize, seed: u64) -> Vec<(String, String)> {
         for i in 0..ne {
             let k = 1 + rnd(2);
             let items_f: Vec<String> = (0..k).map(|_| funcs[rnd(funcs.len())].clone()).collect();
+            mentioned.extend(items_f.iter().cloned());
             let as_exprs = rnd(2) == 0;
             let items = if as_exprs { format!("funcref {}", items_f.iter().map(|f| if rnd(4) == 0 { "(ref.null func)".to_string() } else { format!("(ref.func {f})") }).collect::<Vec<_>>().join(" ")) } else { format!("func {}", items_f.join(" ")) };
             match rnd(3) {
@@ -545,6 +560,7 @@ pub fn random_graph_modules(n: usize, seed: u64) -> Vec<(String, String)> {
             }
             t.push_str(")\n");
         }
+        ref_funcd.retain(|f| !mentioned.contains(f));
         if !ref_funcd.is_empty() { t.push_str(&format!(" (elem declare func {})\n", ref_funcd.join(" "))); }
         // roots
         let mut any = false;
